@@ -7,6 +7,7 @@ import (
 	"runtime"
 	"strings"
 	"sync"
+	"sync/atomic"
 	"testing"
 	"time"
 
@@ -23,12 +24,13 @@ import (
 // race detector; a wrong order is detected from the values alone.
 
 type FreeCase struct {
-	N     int     `json:"n"`
-	Deps  [][]int `json:"deps"`
-	Deps2 [][]int `json:"deps2,omitempty"` // second graph over the same tasks (shared-task check)
-	Mode  string  `json:"mode"`
-	Max   int     `json:"max,omitempty"`
-	Spin  []int   `json:"spin"`
+	N     int      `json:"n"`
+	Deps  [][]int  `json:"deps"`
+	Deps2 [][]int  `json:"deps2,omitempty"` // second graph over the same tasks (shared-task check)
+	Mode  string   `json:"mode"`
+	Max   int      `json:"max,omitempty"`
+	Spin  []int    `json:"spin"`
+	Out   []string `json:"out,omitempty"` // per task: ok | err | skip (free-running termination check)
 }
 
 func spin(n int) {
@@ -331,10 +333,11 @@ func checkSharedTermination(c *FreeCase) error {
 				return fmt.Errorf("%s: Run returned %v for an all-successful acyclic graph", what, err)
 			}
 			return nil
-		case <-time.After(bound):
+		case <-time.After(stallWait()):
+			atomic.StoreInt32(&stallSeen, 1)
 			mu.Lock()
 			defer mu.Unlock()
-			return fmt.Errorf("STALL: %s did not return within %s (tasks run so far per task: %v); every started task function had returned", what, bound, runs)
+			return fmt.Errorf("STALL-CONFIRMED: %s did not return within %s (+ confirmation wait) (tasks run so far per task: %v); every started task function had returned", what, bound, runs)
 		}
 	}
 	// one after another: a graph that has finished must leave its tasks usable
@@ -370,6 +373,84 @@ func checkSharedTermination(c *FreeCase) error {
 	return nil
 }
 
+// --- C16: Run returns under true concurrency, with failures and skips, under small limits ---
+// The controlled harness serialises completions; here nothing is serialised, so windows inside the
+// scheduler (several completions arriving within one step) are exercised by the runtime.
+
+func checkFreeTermination(c *FreeCase) error {
+	tasks := make([]*dag.Task, c.N)
+	for i := 0; i < c.N; i++ {
+		i := i
+		tasks[i] = dag.NewTask(taskID(i), func(ctx context.Context, opt *getoptions.GetOpt, args []string) error {
+			spin(c.Spin[i] / 20)
+			switch c.Out[i] {
+			case "err":
+				return fmt.Errorf("failure of %s", taskID(i))
+			case "skip":
+				return dag.ErrorSkipParents
+			}
+			return nil
+		})
+	}
+	g := buildFree("ft", c, c.Deps, tasks)
+	done := make(chan error, 1)
+	go func() { done <- g.Run(context.Background(), nil, nil) }()
+	select {
+	case <-done:
+		return nil
+	case <-time.After(stallWait()):
+		atomic.StoreInt32(&stallSeen, 1)
+		return fmt.Errorf("STALL-CONFIRMED: Run did not return within %s (+%s confirmation) although every task function returns promptly (mode %s, limit %d, outcomes %v, deps %v)", StallBound, StallConfirm, c.Mode, c.Max, c.Out, c.Deps)
+	}
+}
+
+var freeTermination = &freeProp{ID: "C16", Sub: "free-termination",
+	Rule: "free-running (no gates): wide random graphs x small SetMaxParallel limits / serial / parallel x outcomes {ok, error, ErrorSkipParents} with near-instant task functions, so that several completions reach the scheduler within one of its steps; Run must return within the bounded wait; distinct by case",
+	Gen: func(t *rapid.T) *FreeCase {
+		if rapid.Bool().Draw(t, "bigstar") {
+			// a failing / skipping hub with many dependents (each gets a "skipped" result from the scheduler)
+			// while many instant independent tasks complete: many completions per scheduler step
+			n := rapid.IntRange(20, 60).Draw(t, "n")
+			c := &FreeCase{N: n, Deps: make([][]int, n), Mode: "max", Max: rapid.IntRange(1, 2).Draw(t, "max")}
+			nd := rapid.IntRange(n/4, 3*n/4).Draw(t, "ndependents")
+			for i := 1; i <= nd; i++ {
+				c.Deps[i] = []int{0}
+				if i > 1 && chance(t, "chain", 20) {
+					c.Deps[i] = append(c.Deps[i], i-1)
+				}
+			}
+			c.Spin = make([]int, n)
+			c.Out = make([]string, n)
+			for i := range c.Out {
+				c.Out[i] = "ok"
+				c.Spin[i] = rapid.SampledFrom([]int{0, 0, 20, 200, 2000}).Draw(t, "spin")
+			}
+			c.Out[0] = rapid.SampledFrom([]string{"err", "err", "skip"}).Draw(t, "hub")
+			c.Spin[0] = rapid.SampledFrom([]int{0, 200, 4000}).Draw(t, "hubspin")
+			return c
+		}
+		c := genFree(t, []string{"max", "max", "max", "serial", "parallel"}, 8, false)
+		if c.Mode == "max" {
+			c.Max = rapid.IntRange(1, 3).Draw(t, "smallmax")
+		}
+		c.Out = make([]string, c.N)
+		for i := range c.Out {
+			switch {
+			case chance(t, "err", 20):
+				c.Out[i] = "err"
+			case chance(t, "skip", 12):
+				c.Out[i] = "skip"
+			default:
+				c.Out[i] = "ok"
+			}
+		}
+		return c
+	},
+	Check: checkFreeTermination,
+}
+
+func TestC16_freetermination(t *testing.T) { freeTermination.run(t) }
+
 var sharedTermination = &freeProp{ID: "C16", Sub: "shared-termination",
 	Rule:  "free-running: two graphs with independent random edges over the SAME Task objects, in every mode; run one after the other and then concurrently; every Run must return within the bounded wait and every task must have run once per graph run; distinct by case",
 	Gen:   func(t *rapid.T) *FreeCase { return genFree(t, []string{"parallel", "max", "serial"}, 6, true) },
@@ -379,6 +460,7 @@ var sharedTermination = &freeProp{ID: "C16", Sub: "shared-termination",
 func TestC16_shared(t *testing.T) { sharedTermination.run(t) }
 
 func init() {
+	freeTermination.register()
 	sharedTermination.register()
 	freeOrder.register()
 	freeCounter.register()
